@@ -207,6 +207,9 @@ class Ctx:
         self.defined = []
         self.defined_ids = set()
         self.pos = 0
+        o = getattr(self, "oracle", None)
+        if o is not None:       # per-path oracle state: names of fresh unknowns must not depend on the path number
+            o.update(candidates=[], calls=0, fresh=0, log=[])
 
     def decide(self, cond, payload=None):
         """Concrete truth value for z3 BoolRef `cond` on this path."""
